@@ -69,6 +69,10 @@ func Scenarios(prop string) []gx.Sc {
 			// close while a re-dispatch is under way and fails (the partition's leader moved, metadata says "no leader" for a while)
 			{Name: "cons?n=2&cuts=1&fmts=5&nb=2&move=1&app=1&closeany=1&mfaults=leader-unavailable&faults=notleader&gates=" + gates, Q: 3, T: 4},
 			{Name: "cons?n=3&cuts=3&fmts=5&np=2&nb=2&move=1&app=3&buf=1&closeany=1&mfaults=leader-unavailable&faults=notleader,drop&gates=" + gates, Q: 2, T: 3},
+			// an application that turns to Errors() only after it asked for shutdown: an error the consumer wants to report
+			// (connection failure, Kafka error) waits for a reader while the close goes on
+			{Name: "cons?n=2&cuts=1&fmts=5&slow=1&buf=0&eslow=1&closeany=1&faults=drop,unknown-error&gates=" + gates, Q: 2, T: 3},
+			{Name: "cons?n=2&cuts=1&fmts=5&np=2&buf=0&eslow=1&closeany=1&faults=drop&gates=" + gates, Q: 2, T: 3},
 		}
 	}
 	return nil
